@@ -111,7 +111,7 @@ TEXTS["C13"] = {"text": "Machine-checked proof (Coq), same model as C12: Count <
   "note": STD_NOTE,
   "technique": "Coq proof (invariants + refinement to a FIFO queue spec with one chunk) + differential correspondence check + text-derived monitors"}
 
-POOL_NOTE = STD_NOTE + " Go's container/heap is transcribed (Txcache/Heap.v) and its Pop proved to return the extreme element of the strict total order more_valuable, i.e. the cursor the model's pick_best / worst_index designates (Props/C03b.v)."
+POOL_NOTE = STD_NOTE + " Go's container/heap is transcribed (Txcache/Heap.v) and its Pop proved to return the extreme element of the strict total order more_valuable, i.e. the cursor the model's pick_best / worst_index designates; the selection loop and the multi-pass eviction loop transcribed WITH that heap (Txcache/HeapLoop.v) are proved equal, end to end, to the model loops the property theorems speak about (Props/C03b.v: C03_heap_select_is_select, C07_heap_eviction_is_eviction)."
 TEXTS["C03"] = {
     "text": "Machine-checked (Coq): more_valuable (PPU desc, gas limit desc, hash asc) is a strict total order on distinct hashes and the heap's pop is its unique maximum, "
             "so the deterministic selection is a function of pool contents, session and limits; PPU = floor(fee/gasLimit) for every fee whose quotient fits a uint64 "
